@@ -464,7 +464,7 @@ def judge(ctx, root, argv, sources, references, tree, schema, use_binary):
 
 
 def plan(tier, seed):
-    n = 3000 if tier == "quick" else 30000
+    n = 3000 if tier == "quick" else 150000
     return [("trees", n // 16, i) for i in range(16)] + [("permissions",)]
 
 
